@@ -440,13 +440,15 @@ impl Gen {
             4 => {
                 // fee config: rate and treasury toggles
                 let rates: [u128; 7] = [0, 1, 10_000, 50_000, 99_999, 100_000, 100_001];
-                let tr = if rng.chance(1, 2) { sc.treasury.clone() } else { None };
+                // (now and then the staking contract itself is named as treasury: legal, fees then stay put)
+                let tr = if rng.chance(1, 8) { Some(sc.q.clone()) } else if rng.chance(1, 2) { sc.treasury.clone() } else { None };
                 vec![Op::exec(&sc.admin, &sc.q, json!({"update_config": {"protocol_fee_config": {"dao_treasury_fee": rng.pick(&rates).to_string(), "treasury_address": tr}}}), vec![])]
             }
             5 => {
                 // protocol chain section: minimum and oracle toggle (channel / denom / prefix fixed)
                 let mins: [u128; 4] = [1, 100, 1000, 5000];
-                let or = if rng.chance(2, 3) { sc.oracle.clone() } else { None };
+                // (now and then in the all-upper-case spelling, which names the same contract)
+                let or = if rng.chance(2, 3) { if rng.chance(1, 6) { sc.oracle.clone().map(|o| o.to_uppercase()) } else { sc.oracle.clone() } } else { None };
                 vec![Op::exec(
                     &sc.admin,
                     &sc.q,
